@@ -2,7 +2,7 @@
 CFG = {'harness': 'det',
  'axioms': [],
  'uses_gen': True,
- 'rule': 'decision table of the property text (sample count around 63/64/last_index x suppression x keep_bit x '
+ 'rule': 'large packets: keep_last = 2^k and 2^k+-1 for k=6..11 on accepted packets, sample counts 8190/32766/65532/65533; decision table of the property text (sample count around 63/64/last_index x suppression x keep_bit x '
          'keep_last around 0/33/34/last-index boundary/4095 x requested_samples in {0,1,2,n+1,n+2,n+3,n+100}) with '
          'sample fills incl. i16 extremes and negative sums not divisible by 64; short form with all flag/unused-bit '
          'combinations; valid packets with one field changed (22 kinds), truncations/extensions, byte changes; lengths '
